@@ -57,6 +57,8 @@ pub struct FaultCtl {
   pub faults_fired: Cell<u64>,
   /// a key store that does not set `kid` on the JWKs it generates (legal: `generate_method` documents the case)
   pub strip_kid: Cell<bool>,
+  /// a key store that does not set the optional `alg` member on the JWKs it generates
+  pub strip_alg: Cell<bool>,
 }
 
 impl FaultCtl {
@@ -165,11 +167,16 @@ impl JwkStorage for FaultyJwk {
       return Err(jwk_err());
     }
     let mut r = self.inner.generate(key_type, alg).await;
-    if self.ctl.strip_kid.get() {
+    if self.ctl.strip_kid.get() || self.ctl.strip_alg.get() {
       if let Ok(out) = &r {
         let mut j = serde_json::to_value(&out.jwk).expect("jwk to json");
         if let Some(o) = j.as_object_mut() {
-          o.remove("kid");
+          if self.ctl.strip_kid.get() {
+            o.remove("kid");
+          }
+          if self.ctl.strip_alg.get() {
+            o.remove("alg");
+          }
         }
         if let Ok(jwk) = serde_json::from_value::<Jwk>(j) {
           r = Ok(JwkGenOutput::new(out.key_id.clone(), jwk));
